@@ -1019,7 +1019,7 @@ pub fn gen_sqlive(seed: u64, count: usize) -> Vec<String> {
         // a linear combination of b and c into `dst`, preserving both (through `tmp`)
         let lin = |e: &mut Emit, r: &mut Rng, dst: i64, tmp: i64| {
             for v in [b, c] {
-                let k = *r.pick(&[1i64, 1, 2, 3]);
+                let k = *r.pick(&[1i64, 1, 1, 1, 2, 3]);
                 e.goto(v);
                 e.out.push_str("[-");
                 e.add_const(dst, k);
@@ -1085,7 +1085,7 @@ pub fn gen_sqlive(seed: u64, count: usize) -> Vec<String> {
         e.goto(x);
         e.out.push('.');
         lin(&mut e, &mut r, 10, 9);
-        if r.below(2) == 0 {
+        if r.below(4) == 0 {
             e.goto(2);
             e.out.push('.');
         }
